@@ -62,20 +62,27 @@ def showOutcome : Except ErrName Unit → String
   | .ok _ => "ok"
   | .error e => "err:" ++ e
 
+/-- `NoLitTok` of the theorems, as a test: no literal marker character in the parsed pattern -/
+def noLitTok (p : List Sym) : Bool := p.all fun | .lit c => c != Ombott.Gen.paramToken | .tok _ => true
+
 def inDom (cenv : CompileEnv) (rule : Str) : Bool :=
   match parseRule cenv rule with
-  | .ok p => inDomain rule p
+  | .ok p => inDomain rule p && noLitTok p.syms
   | .error _ => true
 
 /-- removal only uses the pattern string: the marker character must not occur in the rule text -/
-def noMarker (rule : Str) : Bool := !rule.contains Ombott.Gen.paramToken
+def noMarker (cenv : CompileEnv) (rule : Str) : Bool :=
+  !rule.contains Ombott.Gen.paramToken &&
+    match parseRule cenv rule with
+    | .ok p => noLitTok p.syms
+    | .error _ => true
 
 def stepOp (st : St) (idx : Nat) (op : String) : Option (St × String) :=
   match splitBar op with
   | ["X", rule, cerr] => do
     let cenv := cenvOf (← parseCerr cerr)
     let rule := unhexStr rule
-    if !noMarker rule then none
+    if !noMarker cenv rule then none
     let (R, out) := st.R.removeRule cenv rule
     pure ({ st with R := R }, showOutcome out)
   | ["XN", name] => do
@@ -90,7 +97,7 @@ def stepOp (st : St) (idx : Nat) (op : String) : Option (St × String) :=
   | ["XH", rule, cerr] => do
     let cenv := cenvOf (← parseCerr cerr)
     let rule := unhexStr rule
-    if !noMarker rule then none
+    if !noMarker cenv rule then none
     let (R, out) := st.R.removeHook cenv rule
     pure ({ st with R := R }, showOutcome out)
   | ["I", name] =>
